@@ -37,20 +37,42 @@ theorem isoparse_sound (cfg : Option Nat) (s : Bytes) (v : Result) (h : isoparse
 theorem isoparse_entry_sound (sep : Option (List Nat)) (isStr : Bool) (s : Bytes) (v : Result)
     (h : isoparseFull sep isStr s = .ok v) :
     ∃ f x, IsoSpec.WFields f x ∧ s = IsoSpec.render f x ∧ v = IsoSpec.denote f x ∧
+      (f.time ≠ .none → (sep = none ∨ sep = some [f.sep])) ∧
       (isStr = true → ∀ b ∈ s, b < 128) := by
   unfold isoparseFull at h
   cases hs : mkSep sep with
   | error e => simp [hs, bind, Except.bind] at h
   | ok sp =>
     simp only [hs, bind, Except.bind, asciiGate] at h
+    have hsp : sp = none → sep = none := by
+      intro e; subst e
+      unfold mkSep at hs
+      split at hs
+      · rfl
+      · split at hs <;> cases hs
+      · cases hs
+    have hsp' : ∀ c, sp = some c → sep = some [c] := by
+      intro c e; subst e
+      unfold mkSep at hs
+      split at hs
+      · cases hs
+      · rename_i c'
+        split at hs
+        · cases hs
+        · cases hs; rfl
+      · cases hs
     split at h
     · cases h
     · rename_i hg
-      obtain ⟨f, x, hW, _, er, ev⟩ := isoparse_sound_core sp s v h
-      refine ⟨f, x, hW, er, ev, fun hstr b hb => ?_⟩
-      by_cases hlt : b < 128
-      · exact hlt
-      · exact absurd ⟨hstr, List.any_eq_true.mpr ⟨b, hb, by simpa using hlt⟩⟩ hg
+      obtain ⟨f, x, hW, hcf, er, ev⟩ := isoparse_sound_core sp s v h
+      refine ⟨f, x, hW, er, ev, ?_, fun hstr b hb => ?_⟩
+      · intro ht
+        rcases hcf ht with h0 | h0
+        · exact Or.inl (hsp h0)
+        · exact Or.inr (hsp' _ h0)
+      · by_cases hlt : b < 128
+        · exact hlt
+        · exact absurd ⟨hstr, List.any_eq_true.mpr ⟨b, hb, by simpa using hlt⟩⟩ hg
 
 /-- with a configured separator the accepted strings are EXACTLY the renderings of well-formed
     fields with that separator (C20 soundness + C07 inverse law) -/
@@ -269,6 +291,30 @@ theorem parse_tzstr_entry_sound_gen (s : Bytes) (z : Bool) (v : Off) (h : Gen.pa
     ∃ o x, o ≠ IsoSpec.OffForm.naive ∧ IsoSpec.offWF o x = true ∧ s = IsoSpec.renderOff o x ∧
       v = offValue z o x := by
   rw [IsoGen.parseTzstrEntry_eq] at h; exact parseTzstr_sound s z v h
+
+/-- the translated `_takes_ascii` rejects non-ASCII TEXT (str or text stream) with ValueError before the wrapped
+    method runs, and adds no exception kind of its own -/
+theorem non_ascii_rejected_gen {α} (f : Bytes → R α) (t : List Nat) (b : Nat) (hb : b ∈ t) (h128 : b ≥ 128) :
+    Gen.takesAscii f (.str t) = .error .ValueError ∧ Gen.takesAscii f (.streamStr t) = .error .ValueError := by
+  have hany : t.any (fun c => decide (c ≥ 128)) = true := by
+    simp only [List.any_eq_true, decide_eq_true_eq]; exact ⟨b, hb, h128⟩
+  have e1 := IsoGen.takesAscii_eq f (.str t)
+  have e2 := IsoGen.takesAscii_eq f (.streamStr t)
+  simp only [IsoGen.toVal] at e1 e2
+  rw [e1, e2]; simp [takesAscii, hany]
+
+theorem takes_ascii_errors_ValueError_gen {α} (f : Bytes → R α) (hf : ∀ s, OnlyVE (f s)) (i : PyInput) (e : PyErr)
+    (h : Gen.takesAscii f (IsoGen.toVal i) = .error e) : e = .ValueError := by
+  rw [IsoGen.takesAscii_eq] at h
+  cases i <;> simp only [takesAscii] at h
+  · split at h
+    · cases h; rfl
+    · exact hf _ e h
+  · exact hf _ e h
+  · split at h
+    · cases h; rfl
+    · exact hf _ e h
+  · exact hf _ e h
 
 /-! non-vacuity -/
 example : isoparse none [50,48,49,52,45,48,49,45,48,49,84,50,53] = .error .ValueError := by decide +kernel
